@@ -7,6 +7,7 @@ package mc
 
 import (
 	"fmt"
+	"strings"
 	"testing"
 
 	ml "github.com/hashicorp/memberlist"
@@ -184,6 +185,9 @@ func TestC01(t *testing.T) {
 	rep.Rule = "BFS to fixpoint over canonical node states; each transition = one claim (alive/suspect/dead/push-pull entry x incarnation h-1,h,h+1 x address x meta x version vector x carrier), time advance, reaping pass or queue drain applied to the real node after replaying the shortest path; distinct = distinct canonical states"
 	rep.Assumptions = []string{"incarnations explored relative to the held one up to the cap (every comparison in the handlers is between claim and held incarnation)", "one activity chain at a time (inject, then quiescence)", "consecutive events are >= 1us apart in virtual time"}
 
+	if replayT(t, rep, c01TScenarios()) {
+		return
+	}
 	var rp swimReplay
 	replay := loadReplay(&rp)
 	for i, c := range cfgs {
@@ -221,6 +225,9 @@ func TestC01(t *testing.T) {
 			return
 		}
 		sc.bfs(t, rep, c.name)
+	}
+	if !replay {
+		runTSet(t, rep, c01TScenarios(), 2, 7000, func(v string) bool { return !strings.HasPrefix(v, "event-log") && v != "concurrent-callbacks" })
 	}
 	rep.Distinct = rep.States
 	rep.Evaluations = rep.Transitions
